@@ -157,32 +157,69 @@ func runC03(c *core.Ctx) {
 				}
 				n++
 				key := fmt.Sprintf("%s/slice#%d", f.Name(), n)
-				z := core.ZoneAtIP(p, ins.Block())
 				lenS := lenValue(x.X)
 				var fails []string
 				zero := ssa.Value(nil)
-				// 0 <= lo
-				if x.Low != nil && !z.ProveLE(zero, x.Low, 0) {
-					fails = append(fails, "cannot prove 0 <= low bound")
-				}
-				// lo <= hi  (hi nil → len)
-				hi := x.High
-				if x.Low != nil {
-					if hi != nil {
-						if !z.ProveLE(x.Low, hi, 0) {
-							fails = append(fails, "cannot prove low <= high")
+				prove := func(z *core.Zone, low, hi ssa.Value) {
+					// 0 <= lo
+					if low != nil && !z.ProveLE(zero, low, 0) {
+						fails = append(fails, "cannot prove 0 <= low bound")
+					}
+					// lo <= hi  (hi nil → len)
+					if low != nil {
+						if hi != nil {
+							if !z.ProveLE(low, hi, 0) {
+								fails = append(fails, "cannot prove low <= high")
+							}
+						} else if !proveLEKey(z, low, lenS) {
+							fails = append(fails, "cannot prove low bound <= len")
 						}
-					} else if !proveLEKey(z, x.Low, lenS) {
-						fails = append(fails, "cannot prove low bound <= len")
+					}
+					if hi != nil {
+						if !z.ProveLE(zero, hi, 0) {
+							fails = append(fails, "cannot prove 0 <= high bound")
+						}
+						if !proveLEKey(z, hi, lenS) {
+							fails = append(fails, "cannot prove high bound <= len (slicing past len panics or, within spare capacity, yields elements that were never in the list)")
+						}
 					}
 				}
-				if hi != nil {
-					if !z.ProveLE(zero, hi, 0) {
-						fails = append(fails, "cannot prove 0 <= high bound")
+				// a bound that merges several values (a clamped count) is proven per incoming edge, under the facts of that
+				// edge; an edge whose facts contradict each other cannot be taken
+				var phi *ssa.Phi
+				which := ""
+				if ph, isPhi := core.Resolve(x.High).(*ssa.Phi); x.High != nil && isPhi {
+					phi, which = ph, "high"
+				} else if ph, isPhi := core.Resolve(x.Low).(*ssa.Phi); x.Low != nil && isPhi {
+					phi, which = ph, "low"
+				}
+				if phi != nil && phi.Block().Dominates(ins.Block()) {
+					for i, e := range phi.Edges {
+						pred := phi.Block().Preds[i]
+						z := core.ZoneAtIP(p, pred)
+						if iff, isIf := pred.Instrs[len(pred.Instrs)-1].(*ssa.If); isIf {
+							for _, cnd := range core.ExpandCond(core.Cond{V: iff.Cond, True: pred.Succs[0] == phi.Block()}) {
+								if m, okM := core.AsCmp(cnd); okM {
+									z.AddCmpLin(m)
+								}
+							}
+						}
+						for _, m := range core.EdgeCmps(ins.Block()) {
+							if m.X != ssa.Value(phi) && m.Y != ssa.Value(phi) {
+								z.AddCmpLin(m)
+							}
+						}
+						if !z.Consistent() {
+							continue
+						}
+						if which == "high" {
+							prove(z, x.Low, e)
+						} else {
+							prove(z, e, x.High)
+						}
 					}
-					if !proveLEKey(z, hi, lenS) {
-						fails = append(fails, "cannot prove high bound <= len (slicing past len panics or, within spare capacity, yields elements that were never in the list)")
-					}
+				} else {
+					prove(core.ZoneAtIP(p, ins.Block()), x.Low, x.High)
 				}
 				c.Check(len(fails) == 0, "R1", key, p.InstrPos(ins), "0 <= lo <= hi <= len proven from dominating guards", strings.Join(fails, "; ")+" for "+sliceText(x))
 			case *ssa.IndexAddr, *ssa.Index:
@@ -608,10 +645,10 @@ func c03window(p *core.Prog, f *ssa.Function, spec [3]string) (bool, string) {
 				okL, okH := true, true
 				lo, hi = zero, L
 				if x.Low != nil {
-					lo, okL = core.LinOf(x.Low)
+					lo, okL = core.LinOf(onPath(x.Low))
 				}
 				if x.High != nil {
-					hi, okH = core.LinOf(x.High)
+					hi, okH = core.LinOf(onPath(x.High))
 				}
 				known = okL && okH
 			} else if al, isAl := base.(*ssa.Alloc); isAl {
@@ -644,7 +681,7 @@ func c03window(p *core.Prog, f *ssa.Function, spec [3]string) (bool, string) {
 					}
 					for _, cnd := range core.ExpandCond(core.Cond{V: cv, True: path[k+1] == b.Succs[0]}) {
 						if m, okM := core.AsCmp(cnd); okM {
-							z.AddCmp(m)
+							z.AddCmpLin(m)
 						}
 					}
 				}
